@@ -45,6 +45,20 @@ class Grp:
                 return l
 
 
+def junk_identity(g, rng):
+    """an identity representative (X, Y, 0) with arbitrary X, Y (what P + (-P) leaves behind)"""
+    K = g.K
+    return "%s/%s/%s" % (K.show(K.rand(rng)), K.show(K.rand(rng)), K.show(K.zero))
+
+
+def scaled_off_curve(g, P, s_):
+    """(s^2 x, s^3 y): an order-preserving image of P on the isomorphic curve y^2 = x^3 + b s^6 (NOT on E unless s^6 = 1);
+    the a = 0 formulas do not involve b, so r times it is still the identity"""
+    K = g.K
+    s2 = K.mul(s_, s_)
+    return (K.mul(s2, P[0]), K.mul(K.mul(s2, s_), P[1]))
+
+
 def rep_lams(g, rng):
     """scalings lambda for Jacobian representatives (lambda^2 x, lambda^3 y, lambda): z = 1, -1, 2, limb-structured, random"""
     K = g.K
@@ -124,6 +138,17 @@ def check_C01(ck):
                 Pw = (K.mul(K.from_int(omega), P[0]), P[1])
                 assert C.on_curve(Pw)
                 pairs.append((ca + "+same-y-other-x", P, Pw))
+        jc, je = [], []
+        for (ca, P) in pts[1:4]:
+            ji = junk_identity(g, rng)
+            for op, a1, a2, want in (("add", ji, g.J(P, g.lam(rng)), g.A(P)), ("add", g.J(P, g.lam(rng)), ji, g.A(P)), ("sub", g.J(P), ji, g.A(P)),
+                                     ("add", ji, junk_identity(g, rng), "inf"), ("eq", ji, g.J(None), "true"), ("eq", ji, g.J(P), "false")):
+                jc.append(("junk-identity/" + op, "%s %s %s %s" % (tag, op, a1, a2))); je.append(want)
+            for op, want in (("dbl", "inf"), ("neg", "inf"), ("toaff", "inf"), ("isnorm", "true")):
+                jc.append(("junk-identity/" + op, "%s %s %s" % (tag, op, junk_identity(g, rng)))); je.append(want)
+            jc.append(("junk-identity/addm", "%s addm %s %s" % (tag, junk_identity(g, rng), g.A(P)))); je.append(g.A(P))
+        for c, (impl, _), want in zip(jc, ck.run(jc), je):
+            ck.expect(impl == want, "grouplaw:junk-identity", c[1], impl, want, "any (X, Y, 0) is the identity")
         pairs.append(("order3: 2P=-P", P3, P3))
         repcases, repexp = [], []
         for (ca, P) in pts[1:4]:
@@ -302,6 +327,18 @@ def check_C02(ck):
             line = "%s wnafhist %s" % (tag, ";".join(hist))
             (impl, _), = ck.run([("wnaf-history", line)])
             ck.expect(impl == ";".join(want), "wnaf-history", line, impl, ";".join(want), "reused context = fresh context = [k]P")
+        # directed histories: big table, then small window with another base, then a medium window with the same base
+        B1, B2 = base_pts[1][1], g.sub_pt(rng)
+        k1, k2, k3 = rng.randrange(1, R), rng.randrange(1, R), rng.randrange(1, R)
+        for hist, want in (
+            (["bs:%s:%x:%x" % (g.J(B1), 100, k1), "bs:%s:%x:%x" % (g.J(B2), 1, k2), "bs:%s:%x:%x" % (g.J(B2), 10, k3)], [(B1, k1), (B2, k2), (B2, k3)]),
+            (["bs:%s:%x:%x" % (g.J(B1), 300, k1), "sb:%x:%s" % (5, g.J(B2)), "bs:%s:%x:%x" % (g.J(B2), 21, k3)], [(B1, k1), (B2, 5), (B2, k3)]),
+            (["bs:%s:%x:%x" % (g.J(B2), 2, k1), "bs:%s:%x:%x" % (g.J(B1), 121, k2), "bs:%s:%x:%x" % (g.J(B2), 2, k3), "bs:%s:%x:%x" % (g.J(B2), 44, k1)], [(B2, k1), (B1, k2), (B2, k3), (B2, k1)]),
+        ):
+            line = "%s wnafhist %s" % (tag, ";".join(hist))
+            (impl, _), = ck.run([("wnaf-history/shrinking-windows", line)])
+            w_ = ";".join(g.A(C.mul(P, k)) for (P, k) in want)
+            ck.expect(impl == w_, "wnaf-history", line[:160], impl[:120], w_[:120], "reused context = fresh context = [k]P (table sizes shrink and grow again)")
         # directed histories: a zero (and a tiny) scalar right after a non-zero one on the same buffers
         kk = rng.randrange(1, R)
         P0 = base_pts[1][1]
@@ -571,6 +608,13 @@ def _enc_classes(g, rng, thorough):
             if comp:
                 b2[0] |= 0x80 | (0x20 if xv % 2 else 0)
             out.append(("small-x", bytes(b2), comp))
+        for s_ in ([K.from_int(2), K.from_int(3)] + ([(1, 1), (0, 1)] if K is F2 else [])):
+            Pt = scaled_off_curve(g, g.sub_pt(rng), s_)
+            if not C.on_curve(Pt):
+                out.append(("order-r-point-of-isomorphic-curve", O.encode(K, Pt, comp), comp))
+        if K is F2:
+            P1 = grp("g1").sub_pt(rng)
+            out.append(("g1-point-embedded-in-fq2", O.encode(K, ((P1[0], 0), (P1[1], 0)), comp), comp))
         if K is F2:
             for (kind, P) in g2_special_y_points(rng, 6 if not thorough else 12):
                 for Pt in (P, C.neg(P)):
@@ -653,6 +697,9 @@ def check_C05(ck):
                     for (rc, lam) in rep_lams(g, rng):
                         cases.append(("ser_jac/" + rc, "%s ser_jac %s %d" % (tag, g.J(P, lam), 1 if comp else 0))); exp.append(want)
                 cases.append(("into_(un)compressed/" + c, "%s %s %s" % (tag, "intocomp" if comp else "intouncomp", g.A(P)))); exp.append(want)
+        for comp in (True, False):
+            for _ in range(3):
+                cases.append(("ser_jac/identity-with-junk-coordinates", "%s ser_jac %s %d" % (tag, junk_identity(g, rng), 1 if comp else 0))); exp.append(O.encode(K, None, comp).hex())
         res = ck.run(cases)
         for c, (impl, _), want in zip(cases, res, exp):
             ck.expect(impl == want, "zcash:" + c[0].split("/")[0], c[1], impl, want, "byte-for-byte ZCash format / round trip")
@@ -721,6 +768,8 @@ def check_C19(ck):
                     if ln >= len(bs):
                         continue
                     cases.append(("%s/truncated" % tag, "%s deser_aff %s %d" % (tag, bs[:ln].hex() or "-", fl))); exp.append("ERR:eof")
+        for comp in (True, False):
+            cases.append(("%s/ser_jac-junk-identity" % tag, "%s ser_jac %s %d" % (tag, junk_identity(g, rng), 1 if comp else 0))); exp.append(O.encode(K, None, comp).hex())
         # every rejected class of C04 -> error (never a value)
         for (c, bs, comp) in _enc_classes(g, rng, False)[:: (5 if not thorough else 1)]:
             r = O.decode(C, None, bs, comp, True)
@@ -757,6 +806,10 @@ def check_C07(ck):
         for _ in range(4):
             T = twist.random_point(rng)
             cases.append(("insub/other-curve", "%s insub %s" % (tag, g.A(T)))); exp.append("false")
+        for s_ in ([K.from_int(2), K.from_int(3), K.from_int(5)] + ([(1, 1), (0, 1)] if K is F2 else [])):
+            T = scaled_off_curve(g, g.sub_pt(rng), s_)
+            if not C.on_curve(T):
+                cases.append(("insub/order-r-point-of-isomorphic-curve", "%s insub %s" % (tag, g.A(T)))); exp.append("false")
         if tag == "g2":
             g1g = grp("g1")
             for _ in range(4):
